@@ -120,7 +120,8 @@ func (b *bytecode) compile(c *Compiler, expr ast.Expr, env *val.Env) {
 	case *ast.MemberExpr:
 		b.compile(c, e.Obj, env)
 		b.emitOP(OP_OBJ_LOAD)
-		b.emitMediumInt(e.Index)
+		// 结构类型不区分字段顺序, 必须按字段名访问
+		b.emitConst(e.Field.Name)
 
 	default:
 		util.Unreachable()
